@@ -347,20 +347,33 @@ func writeSegment(ctx context.Context, w http.ResponseWriter, log *slog.Logger, 
 
 // calcStatusCode returns the configured status code for the segment or 0 if none.
 func calcStatusCode(cfg *ResponseConfig, a *asset, segmentPart string, nowMS int) (int, error) {
-	rep, _, err := findRepAndSegmentID(a, segmentPart)
-	if err != nil {
-		return 0, fmt.Errorf("findRepAndSegmentID: %w", err)
-	}
-
-	// segMeta is to be used for all look up. For audio it uses reference (video) track
-	segMeta, err := findSegMeta(a, cfg, segmentPart, nowMS)
-	if err != nil {
-		return 0, fmt.Errorf("findSegMeta: %w", err)
+	var repID string
+	var segMeta segMeta
+	if subsRepID, nrOrTime, ok := timeSubsRepAndSegmentID(segmentPart); ok {
+		// Generated subtitles (timesubsstpp_, timesubswvtt_) have no representation data:
+		// they follow the reference track segment by segment.
+		var err error
+		repID = subsRepID
+		segMeta, err = a.getRefSegMeta(nrOrTime, cfg, nowMS)
+		if err != nil {
+			return 0, fmt.Errorf("getRefSegMeta: %w", err)
+		}
+	} else {
+		rep, _, err := findRepAndSegmentID(a, segmentPart)
+		if err != nil {
+			return 0, fmt.Errorf("findRepAndSegmentID: %w", err)
+		}
+		repID = rep.ID
+		// segMeta is to be used for all look up. For audio it uses reference (video) track
+		segMeta, err = findSegMeta(a, cfg, segmentPart, nowMS)
+		if err != nil {
+			return 0, fmt.Errorf("findSegMeta: %w", err)
+		}
 	}
 	startTime := int(segMeta.newTime)
 	repTimescale := int(segMeta.timescale)
 	for _, ss := range cfg.SegStatusCodes {
-		if !repInReps(rep.ID, ss.Reps) {
+		if !repInReps(repID, ss.Reps) {
 			continue
 		}
 		// Then move to the reference track and relate to cycles
@@ -396,6 +409,27 @@ func calcStatusCode(cfg *ResponseConfig, a *asset, segmentPart string, nowMS int
 		}
 	}
 	return 0, nil
+}
+
+// timeSubsRepAndSegmentID recognises a media segment of a generated subtitle track
+// (timestpp-<lang>/<nr or time>.m4s, timewvtt-<lang>/...).
+func timeSubsRepAndSegmentID(segmentPart string) (repID string, nrOrTime int, ok bool) {
+	for _, prefix := range []string{SUBS_STPP_PREFIX, SUBS_WVTT_PREFIX} {
+		lang, seg, match := timeSubsSegmentParts(prefix, segmentPart)
+		if !match {
+			continue
+		}
+		nrStr, ext, cut := strings.Cut(seg, ".")
+		if !cut || ext != "m4s" {
+			return "", 0, false
+		}
+		nrOrTime, err := strconv.Atoi(nrStr)
+		if err != nil {
+			return "", 0, false
+		}
+		return prefix + "-" + lang, nrOrTime, true
+	}
+	return "", 0, false
 }
 
 func findLastSegNr(cfg *ResponseConfig, a *asset, nowMS int, rep *RepData) int {
